@@ -172,6 +172,8 @@ def cursor_machine(ctx, body, eps):
                 if ds in ("0", "1", "true", "false") or (isinstance(d, tuple) and d and d[0] == "const") or te._const_discr(d) is not None:
                     continue        # a test on a compile-time constant (a direction flag of an inlined helper) describes nothing
                 m = ("other", ds, chosen)
+            if m in conds:
+                continue            # the same test, tested again (a helper returned what it had tested)
             conds.append(m)
         rs = _norm_copy_out(show(res.ret))
         if res.ret[0] == "agg" and res.ret[3] == "None":
@@ -1685,7 +1687,7 @@ def c05(ctx, res):
         res.oblige("C05.3 `%s` writes exactly the two links that bypass the node" % b.path, good, detail=why, key="C05.3:%s:unlink" % b.path,
                    loc=span_str(b.span), rule="C05.3 list primitives", msg="`%s`: %s" % (b.path, "; ".join(why)))
     # callers of splice-in on a cache: node goes between the seal and the seal's MRU link, seal-side field = MRU link
-    te0 = _te(ctx, False)
+    te0 = _te(ctx, True)        # (accessors and single-path helpers such as a `list_ends()` snapshot are seen through)
     n_call = 0
     work_b = [(b_, frozenset()) for b_ in ctx.facts.bodies]
     deferred_b = set()
@@ -1781,6 +1783,18 @@ def c14(ctx, res):
         res.violate("C14:anchor-missing:clone", "Clone for the cache not found", None, {}, "anchors")
         return
     loc = span_str(b.span)
+    if not cfg_of(b).loops():
+        # the traversal loop lives in a private helper (`clone_entries_from(&mut self, source)`, a private iterator's `next`):
+        # judge clone with the helpers that contain a loop inlined
+        try:
+            from ..inline import derive
+            prims = _named_primitives(ctx)
+            b2, inl = derive(ctx, b, lambda tg: tg.path not in prims and not tg.is_closure and bool(cfg_of(tg).loops()), depth=2)
+            if inl:
+                res.note("C14: clone judged with %s inlined" % ", ".join(x.split("::")[-1] for x in inl))
+                b = b2
+        except Exception:
+            pass
     try:
         paths = te.paths(b, max_visits=2, max_paths=100)
     except TooComplex as e:
